@@ -23,14 +23,16 @@ type c10Pattern struct {
 	Ignores bool // @ignore comments at every block-starting statement, every third simple statement, file head and file end
 }
 
+// c10Patterns in the order they are run: the most comprehensive first, so that a run cut short
+// by the time budget has covered the supersets.
 var c10Patterns = []c10Pattern{
-	{Name: "A", Types: true, Parity: -1},
-	{Name: "B", Funcs: true, Parity: -1},
+	{Name: "G", Types: true, Funcs: true, Ignores: true, Parity: -1},
 	{Name: "C", Types: true, Funcs: true, Parity: -1},
 	{Name: "D", Types: true, Funcs: true, Parity: 0},
 	{Name: "E", Types: true, Funcs: true, Parity: 1},
+	{Name: "A", Types: true, Parity: -1},
+	{Name: "B", Funcs: true, Parity: -1},
 	{Name: "F", Ignores: true, Parity: -1},
-	{Name: "G", Types: true, Funcs: true, Ignores: true, Parity: -1},
 }
 
 func c10PatternByName(n string) c10Pattern {
